@@ -321,12 +321,13 @@ def plan(tier, seed):
         jobs.append(("find", "lists3", find_job("c18_f")))
         jobs.append(("history", "h4", hist_job("c18_h", 300, seed + 1)))
     else:
-        for nm in (0, 1, 2):
-            for ow in (False, True):
-                jobs.append(("update", "big-m2-n%d-ow%d" % (nm, ow), update_job("c18_u_%d_%d" % (nm, ow), big=True, mention=2, maxlist=2,
-                                                                              names=(nm,), ow=(ow,))))
-                jobs.append(("update", "m4-n%d-ow%d" % (nm, ow), update_job("c18_u4_%d_%d" % (nm, ow), mention=4, maxlist=2,
-                                                                          names=(nm,), ow=(ow,))))
+        for ow in (False, True):
+            for nm in (0, 1, 2):
+                jobs.append(("update", "m2-l2-n%d-ow%d" % (nm, ow), update_job("c18_u22_%d_%d" % (nm, ow), mention=2, maxlist=2,
+                                                                             names=(nm,), ow=(ow,))))
+                jobs.append(("update", "big-m1-l2-n%d-ow%d" % (nm, ow), update_job("c18_ub12_%d_%d" % (nm, ow), big=True, mention=1,
+                                                                                 maxlist=2, names=(nm,), ow=(ow,))))
+            jobs.append(("update", "m4-l1-ow%d" % ow, update_job("c18_u41_%d" % ow, mention=4, maxlist=1, ow=(ow,))))
         jobs.append(("find", "lists4", find_job("c18_f", big=True, maxlist=1)))
         for i in range(4):
             jobs.append(("history", "h5-%d" % i, hist_job("c18_h%d" % i, 2500, seed * 10 + i + 1, hist=5, big=True)))
